@@ -64,7 +64,7 @@ def run_replay(path):
 
 
 def finish(prop, tier, seed, results, t0, extra_cov=None, level="proof", checker_cmd=None,
-           update_ledger=False):
+           update_ledger=False, partial=False):
     obs, bounded, functions, inlined, assumptions, notes, downgrades = [], [], {}, set(), set(), [], []
     errors = []
     solver_time = 0.0
@@ -116,13 +116,14 @@ def finish(prop, tier, seed, results, t0, extra_cov=None, level="proof", checker
         os.makedirs(os.path.dirname(ledger_path), exist_ok=True)
         with open(ledger_path, "w") as f:
             json.dump({"property": prop, "tier": tier, "ids": ids}, f, indent=0)
-    elif os.path.exists(ledger_path):
+    elif os.path.exists(ledger_path) and not partial:
         with open(ledger_path) as f:
             led = json.load(f)
         # safety obligation ids carry line numbers and counters: compare modulo those
         def norm(i):
             import re
-            return re.sub(r"@L\d+#\d+", "@L*", i)
+            # line numbers and path / occurrence counters are not part of an obligation's identity
+            return re.sub(r"#\d+", "#*", re.sub(r"@L(\d+|None)", "@L*", i))
         cur = set(norm(i) for i in ids)
         if tier == led.get("tier") or tier == "thorough":
             missing = sorted(set(norm(i) for i in led["ids"]) - cur)
